@@ -1005,6 +1005,71 @@ def inline_new_tables(tree, modname):
     return applied
 
 
+# ---------------------------------------------------------------------------------------------------------------------
+# loop headers: `for i, (a, b) in enumerate(zip(A, B)):` walks A and B in step, as `for i in range(len(A)): a = A[i]; b = B[i]`
+# does when the two have the same length.  Where the reference function has the index form of the loop (same index name,
+# range(len(A))), the zipped form is rewritten to it.  Also `for a, b in zip(A, B)` / `for i, a in enumerate(A)`.
+def loop_headers(fn):
+    return sorted({"%s|%s" % (ast.unparse(x.target), ast.unparse(x.iter)) for x in _own_nodes(fn) if isinstance(x, ast.For)})
+
+
+def restore_index_loops(tree, modname):
+    if os.environ.get("PDSA_NO_ALPHA"):
+        return {}
+    ref = _ref()
+    applied = {}
+    for q, fn in functions_of(tree, modname):
+        heads = ref.get("@loops:" + q)
+        if not heads:
+            continue
+        index_loops = {}
+        for h in heads:
+            t, it = h.split("|", 1)
+            if it.startswith("range(len(") and it.endswith("))") and t.isidentifier():
+                index_loops[it[len("range(len("):-2]] = t
+        if not index_loops:
+            continue
+        for x in list(_own_nodes(fn)):
+            if not isinstance(x, ast.For) or not isinstance(x.iter, ast.Call) or x.orelse:
+                continue
+            it = x.iter
+            seqs, idx, elems = None, None, None
+            if isinstance(it.func, ast.Name) and it.func.id == "enumerate" and len(it.args) == 1 and not it.keywords and isinstance(x.target, ast.Tuple) and len(x.target.elts) == 2 \
+                    and isinstance(x.target.elts[0], ast.Name):
+                idx = x.target.elts[0].id
+                inner = it.args[0]
+                if isinstance(inner, ast.Call) and isinstance(inner.func, ast.Name) and inner.func.id == "zip" and not inner.keywords and isinstance(x.target.elts[1], ast.Tuple) \
+                        and len(inner.args) == len(x.target.elts[1].elts):
+                    seqs, elems = list(inner.args), list(x.target.elts[1].elts)
+                elif isinstance(x.target.elts[1], ast.Name):
+                    seqs, elems = [inner], [x.target.elts[1]]
+            if seqs is None or not all(isinstance(e, ast.Name) for e in elems) or not all(_pure_expr(s_) for s_ in seqs):
+                continue
+            first = ast.unparse(seqs[0])
+            if index_loops.get(first) != idx:
+                continue
+            # the sequences must not be re-bound in the body
+            names = {y.id for s_ in seqs for y in ast.walk(s_) if isinstance(y, ast.Name)}
+            if any(isinstance(y, ast.Name) and isinstance(y.ctx, ast.Store) and y.id in names for b in x.body for y in ast.walk(b)):
+                continue
+            import copy
+            pre = []
+            for s_, e_ in zip(seqs, elems):
+                pre.append(ast.Assign(targets=[ast.Name(id=e_.id, ctx=ast.Store())],
+                                      value=ast.Subscript(value=copy.deepcopy(s_), slice=ast.Name(id=idx, ctx=ast.Load()), ctx=ast.Load())))
+            for p_ in pre:
+                ast.copy_location(p_, x.body[0])
+                for y in ast.walk(p_):
+                    ast.copy_location(y, x.body[0])
+            x.target = ast.copy_location(ast.Name(id=idx, ctx=ast.Store()), x.target)
+            x.iter = ast.copy_location(ast.parse("range(len(%s))" % first, mode="eval").body, x.iter)
+            x.body[0:0] = pre
+            applied[q] = applied.get(q, 0) + 1
+    if applied:
+        ast.fix_missing_locations(tree)
+    return applied
+
+
 def build_reference(repo_pkg_dir, pkg="pydrobert.speech"):
     table = {}
     for fnm in sorted(os.listdir(repo_pkg_dir)):
@@ -1019,6 +1084,9 @@ def build_reference(repo_pkg_dir, pkg="pydrobert.speech"):
             table[q] = s
             table["@ops:" + q] = operand_orders(fn)
             table["@params:" + q] = sorted(params_of(fn))
+            lh = loop_headers(fn)
+            if lh:
+                table["@loops:" + q] = lh
             cs = call_shapes(fn)
             if cs:
                 table["@calls:" + q] = cs
@@ -1264,6 +1332,62 @@ def _single_exit(stmts, target):
             return out, re_
         out.append(st)
     return out, False
+
+
+def _renumber(fn):
+    """Statements spliced into a function keep the line numbers of the helper they came from.  Rules order statements by line,
+    so after splicing every statement of the function gets a fresh number in document order (the line it is reported at is kept
+    in `orig_lineno`)."""
+    counter = [fn.lineno]
+
+    def stamp(node, n):
+        for y in ast.walk(node):
+            if hasattr(y, "lineno"):
+                if not hasattr(y, "orig_lineno"):
+                    y.orig_lineno = y.lineno
+                y.lineno = n
+                y.end_lineno = n
+
+    def go(stmts):
+        last = counter[0]
+        for st in stmts:
+            counter[0] += 1
+            n = counter[0]
+            subs = []
+            for fld in ("body", "orelse", "finalbody"):
+                sub = getattr(st, fld, None)
+                if isinstance(sub, list) and sub and isinstance(sub[0], ast.stmt):
+                    subs.append(sub)
+            for h in getattr(st, "handlers", []) or []:
+                subs.append(h.body)
+            if subs:
+                # header expressions
+                for fld, val in ast.iter_fields(st):
+                    if fld in ("body", "orelse", "finalbody", "handlers"):
+                        continue
+                    for v_ in (val if isinstance(val, list) else [val]):
+                        if isinstance(v_, ast.AST):
+                            stamp(v_, n)
+                if not hasattr(st, "orig_lineno"):
+                    st.orig_lineno = st.lineno
+                st.lineno = n
+                for h in getattr(st, "handlers", []) or []:
+                    if not hasattr(h, "orig_lineno"):
+                        h.orig_lineno = h.lineno
+                    counter[0] += 1
+                    h.lineno = counter[0]
+                    if h.type is not None:
+                        stamp(h.type, counter[0])
+                    h.end_lineno = go(h.body)
+                for sub in subs:
+                    if not any(sub is h.body for h in getattr(st, "handlers", []) or []):
+                        go(sub)
+                st.end_lineno = counter[0]
+            else:
+                stamp(st, n)
+            last = counter[0]
+        return last
+    go(fn.body)
 
 
 def inline_new_helpers(tree, modname):
@@ -1536,6 +1660,12 @@ def inline_new_helpers(tree, modname):
                             st.value = ret if ret is not None else ast.Constant(value=None)
                             new_stmts.append(st)
                     for s_ in new_stmts:
+                        if s_ is st:
+                            continue
+                        # spliced statements are reported at the call they replace
+                        for y_ in ast.walk(s_):
+                            if hasattr(y_, "lineno"):
+                                y_.orig_lineno = getattr(st, "orig_lineno", st.lineno)
                         ast.copy_location(s_, st)
                     blk[i:i + 1] = new_stmts
                     applied.setdefault(caller_q, []).append(hfn.name)
@@ -1555,6 +1685,7 @@ def inline_new_helpers(tree, modname):
         splice(q, fn, owner[0] if owner else None, self_name)
         if len(applied.get(q, [])) > before:
             _ConstFold().visit(fn)  # literal arguments bound to the helper's flags: `if True:` / `if False:` fold away
+            _renumber(fn)
     if applied:
         ast.fix_missing_locations(tree)
     return applied
